@@ -19,6 +19,8 @@ type concSpec struct {
 
 var concSpecs = []concSpec{
 	{file: "GenConcV2Prio.v", part1: "GenV2Prio.v", dir: "v2/priority", roots: []string{"Discipline.main"}},
+	{file: "GenConcLimit.v", part1: "GenLimit.v", dir: "v2/limit", roots: []string{"Discipline.main"}},
+	{file: "GenConcJoinV2.v", part1: "GenJoinV2.v", dir: "v2/join", roots: []string{"Discipline.main"}},
 }
 
 type concFn struct {
@@ -37,20 +39,22 @@ type concFn struct {
 }
 
 type ctr struct {
-	u        *unit
-	spec     concSpec
-	fns      map[*types.Func]*concFn
-	order    []*concFn
-	fields   []*lvar // the fields of G, in order
-	recvKey  string  // the receiver type of all goroutine functions
-	recvT    *ctype
-	chans    []string // constructors of the channel-identifier type, with their argument ("" or "N")
-	chanArg  map[string]string
-	pays     []string // payload constructors
-	payT     map[string]*ctype
-	names    struct{ g, mkG, zeroG, state, chanT, payT, fnT, table string }
-	recStart int
-	usesCap  bool
+	u         *unit
+	spec      concSpec
+	fns       map[*types.Func]*concFn
+	order     []*concFn
+	fields    []*lvar // the fields of G, in order
+	recvKey   string  // the receiver type of all goroutine functions
+	recvT     *ctype
+	chans     []string // constructors of the channel-identifier type, with their argument ("" or "N")
+	chanArg   map[string]string
+	pays      []string // payload constructors
+	payT      map[string]*ctype
+	names     struct{ g, mkG, zeroG, state, chanT, payT, fnT, table string }
+	recStart  int
+	usesCap   bool
+	hasTicker bool
+	shadow    map[string]*lvar // time.Time fields of the receiver: kept as Z in G (part 1 keeps them opaque)
 }
 
 func title(s string) string {
@@ -126,6 +130,48 @@ func (c *ctr) need(obj *types.Func) (*concFn, error) {
 	return f, nil
 }
 
+// shadowField: `dsc.passAt` (a time.Time field of the receiver) is the hidden variable dsc_passAt of G
+func (x *cctx) shadowField(e ast.Expr) *lvar {
+	sel, ok := ast.Unparen(e).(*ast.SelectorExpr)
+	if !ok {
+		return nil
+	}
+	if lv := x.t.identVar(sel.X); lv == nil || lv.proj != "st_dsc" {
+		return nil
+	}
+	tv, ok := x.t.info.Types[sel]
+	if !ok {
+		return nil
+	}
+	n, ok := types.Unalias(tv.Type).(*types.Named)
+	if !ok || namedKey(n) != "time.Time" {
+		return nil
+	}
+	c := x.c
+	if c.shadow == nil {
+		c.shadow = map[string]*lvar{}
+	}
+	if lv, ok := c.shadow[sel.Sel.Name]; ok {
+		return lv
+	}
+	name := "dsc_" + sel.Sel.Name
+	lv := &lvar{goName: name, t: tZ}
+	lv.proj = c.u.fresh(name)
+	lv.setter = c.u.fresh("set_" + name)
+	lv.binder = c.u.fresh("G_" + name)
+	c.fields = append(c.fields, lv)
+	c.shadow[sel.Sel.Name] = lv
+	return lv
+}
+
+// the type of a variable of a goroutine function: time.Time values are nanoseconds (Z) here (part 1 keeps them opaque)
+func (c *ctr) varType(t types.Type) (*ctype, error) {
+	if n, ok := types.Unalias(t).(*types.Named); ok && namedKey(n) == "time.Time" {
+		return tZ, nil
+	}
+	return c.u.ctype(t)
+}
+
 func (c *ctr) newField(f *concFn, goName string, ty *ctype, obj types.Object) *lvar {
 	u := c.u
 	name := f.base + "_" + goName
@@ -186,7 +232,7 @@ func (c *ctr) translate(f *concFn) error {
 		}
 		for _, n := range fd.Names {
 			obj := info.Defs[n]
-			ty, err := u.ctype(obj.Type())
+			ty, err := c.varType(obj.Type())
 			if err != nil {
 				return fmt.Errorf("parameter %s: %v", n.Name, err)
 			}
@@ -199,7 +245,7 @@ func (c *ctr) translate(f *concFn) error {
 		}
 	}
 	for i := 0; i < sig.Results().Len(); i++ {
-		ty, err := u.ctype(sig.Results().At(i).Type())
+		ty, err := c.varType(sig.Results().At(i).Type())
 		if err != nil {
 			return fmt.Errorf("result %d: %v", i, err)
 		}
@@ -244,7 +290,7 @@ func (c *ctr) translate(f *concFn) error {
 		if _, ok := t.vars[obj]; ok {
 			continue
 		}
-		ty, err := u.ctype(obj.Type())
+		ty, err := c.varType(obj.Type())
 		if err != nil {
 			return fmt.Errorf("variable %s: %v", id.Name, err)
 		}
@@ -456,6 +502,10 @@ func (x *cctx) hoist(n ast.Node) ([]string, error) {
 		top := stack[len(stack)-1]
 		stack = stack[:len(stack)-1]
 		switch e := top.(type) {
+		case *ast.SelectorExpr:
+			if lv := x.shadowField(e); lv != nil {
+				x.t.subst[e] = &substVal{texts: []string{lv.proj + " v"}, tys: []*ctype{tZ}}
+			}
 		case *ast.UnaryExpr:
 			if e.Op == token.ARROW {
 				ch, elem, cerr := x.chanExpr(e.X)
@@ -478,6 +528,25 @@ func (x *cctx) hoist(n ast.Node) ([]string, error) {
 				x.t.subst[e] = &substVal{texts: []string{tmp.proj + " v"}, tys: []*ctype{ty}}
 			}
 		case *ast.CallExpr:
+			if name := timeFunc(x.t, e); name == "Now" || name == "Since" {
+				tmp := x.temp("now", tZ)
+				out = append(out, fmt.Sprintf("Now (fun v t => %s)", app(tmp.setter, "t", "v")))
+				val := tmp.proj + " v"
+				if name == "Since" {
+					a, at, p, aerr := x.expr(e.Args[0])
+					if aerr != nil {
+						err = aerr
+						return false
+					}
+					if len(p) != 0 || at.k != kZ {
+						err = x.t.posErr(e, "unsupported operand of time.Since")
+						return false
+					}
+					val = app("i_sub", val, a)
+				}
+				x.t.subst[e] = &substVal{texts: []string{val}, tys: []*ctype{tZ}}
+				return true
+			}
 			if callee, ok := x.isConc(e); ok {
 				if seen[callee.Origin()] {
 					err = x.t.posErr(e, "two calls of the same goroutine function in one statement")
@@ -498,6 +567,15 @@ func (x *cctx) hoist(n ast.Node) ([]string, error) {
 	return out, err
 }
 
+// timeFunc: "Now" / "Since" for a call of time.Now / time.Since
+func timeFunc(t *ftr, call *ast.CallExpr) string {
+	if callee := t.staticCallee(call); callee != nil && callee.Pkg() != nil && callee.Pkg().Path() == "time" &&
+		callee.Type().(*types.Signature).Recv() == nil {
+		return callee.Name()
+	}
+	return ""
+}
+
 func involvesEnv(x *cctx, n ast.Node) bool {
 	found := false
 	ast.Inspect(n, func(m ast.Node) bool {
@@ -506,6 +584,9 @@ func involvesEnv(x *cctx, n ast.Node) bool {
 			found = found || e.Op == token.ARROW
 		case *ast.CallExpr:
 			if _, ok := x.isConc(e); ok {
+				found = true
+			}
+			if n := timeFunc(x.t, e); n == "Now" || n == "Since" {
 				found = true
 			}
 		}
@@ -665,6 +746,43 @@ func (x *cctx) stmt(s ast.Stmt) ([]string, error) {
 		}
 		return x.atom(s)
 	case *ast.AssignStmt:
+		if len(s.Lhs) == 1 && len(s.Rhs) == 1 && s.Tok == token.ASSIGN {
+			if lv := x.shadowField(s.Lhs[0]); lv != nil {
+				pre, err := x.hoist(s.Rhs[0])
+				if err != nil {
+					return nil, err
+				}
+				val, vt, p, err := x.expr(s.Rhs[0])
+				if err != nil {
+					return nil, err
+				}
+				if len(p) != 0 || vt.k != kZ {
+					return nil, t.posErr(s, "unsupported assignment of a time")
+				}
+				return append(pre, "Atom "+fun(app(lv.setter, val, "v"))), nil
+			}
+		}
+		if len(s.Lhs) == 1 && len(s.Rhs) == 1 {
+			if call, ok := ast.Unparen(s.Rhs[0]).(*ast.CallExpr); ok && timeFunc(t, call) == "NewTicker" {
+				// ticker := time.NewTicker(d): the goroutine has one ticker, its channel is CTick
+				pre, err := x.hoist(call.Args[0])
+				if err != nil {
+					return nil, err
+				}
+				d, _, p, err := x.expr(call.Args[0])
+				if err != nil {
+					return nil, err
+				}
+				if len(p) != 0 {
+					return nil, t.posErr(s, "a call in the operand of NewTicker")
+				}
+				if x.c.hasTicker {
+					return nil, t.posErr(s, "a second ticker")
+				}
+				x.c.hasTicker = true
+				return append(pre, "NewTicker "+fun(d)), nil
+			}
+		}
 		// v, ok := <-ch  and  v := <-ch  are a Recv whose continuation assigns
 		if len(s.Rhs) == 1 && (s.Tok == token.ASSIGN || s.Tok == token.DEFINE) {
 			if ue, ok := ast.Unparen(s.Rhs[0]).(*ast.UnaryExpr); ok && ue.Op == token.ARROW && len(s.Lhs) <= 2 {
@@ -865,6 +983,41 @@ func (x *cctx) rangeStmt(s *ast.RangeStmt) ([]string, error) {
 	if err != nil {
 		return nil, err
 	}
+	if tv, ok := t.info.Types[s.X]; ok {
+		if _, isChan := types.Unalias(tv.Type).Underlying().(*types.Chan); isChan {
+			// for x := range ch: receive until the channel is closed
+			ch, elem, err := x.chanExpr(s.X)
+			if err != nil {
+				return nil, err
+			}
+			ety, err := x.c.u.ctype(elem)
+			if err != nil {
+				return nil, t.posErr(s, "%v", err)
+			}
+			get, err := x.c.fromPayload("o", ety)
+			if err != nil {
+				return nil, t.posErr(s, "%v", err)
+			}
+			ok := x.temp("ok", tBool)
+			st := app(ok.setter, "negb (is_nil o)", "v")
+			if s.Key != nil {
+				if id, isId := s.Key.(*ast.Ident); !isId || id.Name != "_" {
+					lv := t.identVar(s.Key)
+					if lv == nil {
+						return nil, t.posErr(s, "unsupported range variables")
+					}
+					st = app(lv.setter, get, st)
+				}
+			}
+			body, err := x.loopBody(s.Body)
+			if err != nil {
+				return nil, err
+			}
+			head := []string{fmt.Sprintf("Recv (fun v => %s) (fun v o => %s)", ch, st),
+				"If (fun v => negb (" + ok.proj + " v)) " + listText([]string{"Break"}) + " []"}
+			return append(pre, "While (fun _ => true) "+listText(append(head, body...))), nil
+		}
+	}
 	xs, xty, p, err := x.expr(s.X)
 	if err != nil {
 		return nil, err
@@ -1027,11 +1180,23 @@ func (x *cctx) chanExpr(e ast.Expr) (string, types.Type, error) {
 		if isRecv(b) {
 			return x.c.chanCtor("C"+title(sel.Sel.Name), ""), ch.Elem(), nil
 		}
+		// ticker.C of the local ticker
+		if bt, ok := t.info.Types[b]; ok && sel.Sel.Name == "C" && strings.HasSuffix(types.TypeString(bt.Type, nil), "time.Ticker") {
+			return x.c.chanCtor("CTick", ""), ch.Elem(), nil
+		}
 	case *ast.SelectorExpr:
 		// dsc.interrupter.C
 		if isRecv(b.X) && sel.Sel.Name == "C" {
 			if bt, ok := t.info.Types[b]; ok && strings.HasSuffix(types.TypeString(bt.Type, nil), "time.Ticker") {
 				return x.c.chanCtor("CTick", ""), ch.Elem(), nil
+			}
+		}
+		// dsc.opts.Input: a field of a struct field of the receiver
+		if isRecv(b.X) {
+			if bt, ok := t.info.Types[b]; ok {
+				if _, isStruct := types.Unalias(bt.Type).Underlying().(*types.Struct); isStruct {
+					return x.c.chanCtor("C"+title(sel.Sel.Name), ""), ch.Elem(), nil
+				}
 			}
 		}
 	case *ast.IndexExpr:
@@ -1069,6 +1234,11 @@ func (c *ctr) payCtor(ty *ctype) (string, error) {
 		name = "PUnit"
 	case kRecord:
 		name = "P" + ty.rec.name
+	case kList:
+		if ty.elem.k != kN {
+			return "", fmt.Errorf("unsupported channel element type")
+		}
+		name = "PList"
 	default:
 		return "", fmt.Errorf("unsupported channel element type")
 	}
